@@ -362,6 +362,16 @@ func (fr *Frame) callFunction(st *State, fn *ssa.Function, bindings []*Val, args
 			x.vc.diag("%s: callee %s not inlined (%s): havoc", fr.fn.String(), name, why)
 		}
 	}
+	if c == nil && len(args) == 1 {
+		if cl, ok := args[0].X.(*Closure); ok && cl.fn.Synthetic == "range-over-func yield" {
+			// `for ... := range it` where the iterator is a known function
+			// literal that is not executed in place (it loops) and has no
+			// contract: same assumption as for an unknown iterator value
+			x.vc.diag("%s: range over an iterator function: body executed as a loop (iterator assumed well-behaved and effect-free)", fr.fn.String())
+			fr.callbackLoop(st, cl, "yield", fr.specEnv(st), pos, "loop")
+			return nil
+		}
+	}
 	if top := x.top; top != nil && top.contract != nil && top.contract.Calls[fn.Name()] == "pure" {
 		// `calls NAME pure` in the contract of the function under verification:
 		// this function's calls to NAME (a callee without a contract of its own)
